@@ -9,6 +9,7 @@ import lib
 
 ID = "C18"
 LEAN_MODULE = "UralModel.Props.C18"
+EXTRA_IMPORTS = ["UralModel.Props.C18Lists"]
 P = "Ural.Props.C18."
 THEOREMS = [P + n for n in [
     "pySearch_spec",
@@ -45,6 +46,24 @@ THEOREMS = [P + n for n in [
     "forms_agree_parsed",
     "hostname_ignores_decoys",
     "path_ignores_authority",
+    # END TO END on url strings: the four spellings x decoy texts (these, not the congruences
+    # noninterference_* / *_only / forms_agree_parsed, carry the "hostname alone" clauses)
+    "parts_spelling",
+    "hostname_spelling",
+    "site_end_to_end",
+    "is_facebook_url_end_to_end",
+    "is_twitter_url_end_to_end",
+    "is_instagram_url_end_to_end",
+    "is_telegram_url_end_to_end",
+    "is_youtube_url_end_to_end",
+    "parts_spelling_path",
+    "shortened_end_to_end",
+    "bare_domain_spellings_not_flagged",
+    # string-level specification against the REAL regenerated lists (Props/C18Lists.lean)
+    "cleanHostB_iff",
+    "real_lists_cleanHost",
+    "is_youtube_url_spec_real",
+    "shortened_spec_real",
 ]]
 TABLE_OBLIGATIONS = [P + n for n in [
     "facebook_table_ok",
@@ -54,6 +73,7 @@ TABLE_OBLIGATIONS = [P + n for n in [
     "site_flags_ascii",
     "l_path_table_ok",
     "homepage_table_ok",
+    "real_lists_clean",
 ]]
 RULE = (
     "A case is one host H (a domain of the regenerated lists — 1,361 shortener, 158 YouTube, the 2 extra "
@@ -83,16 +103,27 @@ TRUSTED = [
     "CPython's urlsplit, SplitResult.hostname and os.path.splitext are hand models (Py/UrlSplit.lean, Py/Split.lean pyHostname, Py/Path.lean): modelled, not verified; compared with the real functions on every case of this run (fields host/path of every record, stream splitext). forms_agree and hostname_ignores_decoys are theorems about these models",
     "hand-written Lean model of the control flow of the eleven predicates (Model/Sites.lean), HostnameTrieSet / TrieDict (Model/HostnameTrieSet.lean, Model/TrieDict.lean, C09), tied by differential execution (this run)",
     "attempt_to_decode_idna (CPython idna codec) is the abstract parameter `puny`; the driver uses the table of the real codec's answers on the xn-- labels of the case; the tries of the driver are built with the identity decoder, legitimate because no listed domain has an xn-- label (checked by the driver on load)",
-    "the big lists (SHORTENER_DOMAINS, YOUTUBE_DOMAINS, SHOULD_RESOLVE_DOMAINS) are universally quantified parameters of the theorems; the driver loads the regenerated lists; that should_resolve's trie is built from SHORTENER_DOMAINS + SHOULD_RESOLVE_DOMAINS is modelled (should_resolve_p) and compared on every listed domain",
+    "the big lists (SHORTENER_DOMAINS, YOUTUBE_DOMAINS, SHOULD_RESOLVE_DOMAINS) are universally quantified parameters of the theorems; the driver loads the regenerated lists; that should_resolve's trie is built from SHORTENER_DOMAINS + SHOULD_RESOLVE_DOMAINS is modelled (should_resolve_p) and compared on every listed domain; the same regenerated lists are also Lean data (Gen/SitesLists.lean, Gen/SitesTables.lean) for the obligation real_lists_clean (every listed domain is a canonical spelling), through which is_youtube_url_spec_real / shortened_spec_real state the string-level specification for the REAL lists",
 ]
 ASSUMPTIONS = [
     "arguments are str or SplitResult (no bytes); lone surrogates are outside the model",
     "trie-based predicates: listed domains and query hostnames are ordinary (not IP literals / localhost), as HostnameTrieSet documents; non-ASCII labels are lower-case and NFKC-stable",
 ]
 UNPROVED = (
-    "Nothing of the statement is left unproved for the model. urlsplit / SplitResult.hostname / os.path.splitext are "
-    "hand models (modelled-not-verified, compared on every case); str.lower / upper are the ASCII mappings of the model "
-    "(the trie-based predicates call Python's full str.lower on the hostname: exact on the generators' alphabet)."
+    "Nothing of the statement is left unproved for the model. How to read the theorem list: noninterference_sites, "
+    "noninterference_shorteners, homepage_path_only, could_be_html_path_only, special_host_only, get_hostname_host_only and "
+    "forms_agree_parsed are CONGRUENCES (g u = g u' -> f (g u) = f (g u')): they hold because the model defines each predicate as "
+    "decision . component . parts and certify that shape of the model (tied to the code by differential execution), not a fact about "
+    "urls. The clauses 'decides from the hostname alone / same answer for the four spellings / cannot be changed by userinfo, query, "
+    "fragment, path text' are carried by the END-TO-END theorems on url strings: is_{facebook,twitter,instagram,telegram}_url_end_to_end, "
+    "is_youtube_url_end_to_end, shortened_end_to_end, bare_domain_spellings_not_flagged, for every url [userinfo@]host[:port]tail "
+    "(hypotheses Decoyed: userinfo without / ? # [ ] TAB CR LF, host non-empty and additionally without @ : %, port without @, tail empty "
+    "or starting with / ? #; PathOK for the shortener predicates; the bare spelling only when it does not itself start with a protocol) "
+    "in the spellings http://, https://, // and bare; the pre-parsed form by forms_agree_parsed. urlsplit / SplitResult.hostname / "
+    "os.path.splitext are hand models (modelled-not-verified, compared on every case); str.lower / upper are the ASCII mappings of the model "
+    "(the trie-based predicates call Python's full str.lower on the hostname: exact on the generators' alphabet). String-level membership "
+    "for the trie predicates (h = d or h ends with '.'+d) holds for canonical hostnames (CleanHost: not special, unpadded, lower-case, no xn-- label) "
+    "against the real lists without hypothesis on the lists (real_lists_clean); for other hostnames the token-level statement applies."
 )
 
 # ---------------------------------------------------------------------------------------
